@@ -1396,7 +1396,9 @@ func (p *parser) optionalIdentifier(name string) bool {
 }
 
 func decodeString(s string) <-chan rune {
-	c := make(chan rune)
+	// buffered, so that the sender can always finish, even if the
+	// receiver stops early because of a parse error
+	c := make(chan rune, len(s))
 	go func() {
 		s := s[1 : len(s)-1]
 		escape := false
